@@ -27,6 +27,62 @@ T = {
   demo="demo/crates/udp/tests/seeded_demo.rs",
   caught_by=[caught("C02", "random", "peer-list-duplicate")],
  ),
+ "C03": dict(
+  worktree="/tmp/seed3-C03",
+  summary="http Connection::run: in reverse-proxy mode the peer address taken from the first request's header is kept for the lifetime of the connection (`opt_stable_peer_addr.insert(..)`) instead of being derived from each request's header",
+  needs="runs_behind_reverse_proxy = true, keep-alive, and two or more announces of different clients on one upstream connection: the later ones are stored under the first client's IP",
+  demo="demo/crates/http/tests/seeded_demo.rs",
+  caught_by=[caught("C03", "e2e", "stored-address-wrong", note="missed at first (the proxy case of the e2e sub-check opened a fresh connection per announce; the header sub-check computes the address per request in the harness). Caught after the proxy case was extended by 4-7 announces of different clients alternating over two kept-alive upstream connections")],
+ ),
+ "C05": dict(
+  worktree="/tmp/seed3-C05",
+  summary="ConnectionValidator::hash feeds the MAC one 20-byte block `elapsed || 128-bit address`, an IPv4 address right-aligned with a zero prefix: IPv4 a.b.c.d and the distinct IPv6 address ::a.b.c.d get the same MAC",
+  needs="an id issued to IPv4 a.b.c.d presented from IPv6 ::a.b.c.d (96 zero bits + the same 32 bits), or the reverse; every other address pair is unaffected",
+  demo="demo.diff (unit tests in crates/udp/src/workers/socket/validator.rs)",
+  caught_by=[caught("C05", "window", "other-ip-accepted", note="missed by the check as it stood (random other addresses and every one-bit neighbour, all of the same family). Caught after must-reject candidates were added that carry the issuing address's bytes in another representation (other family, zero padding on either side, IPv4-compatible / SIIT / NAT64 / 6to4 embeddings, reversed, halves swapped)")],
+ ),
+ "C07": dict(
+  worktree="/tmp/seed3-C07",
+  summary="http TorrentData::upsert_peer_and_get_response_peers (heap representation only) skips remove_peer when the event is `started`: counts include the announcer, its own address can be handed back, and num_seeders drifts up on every repeated `started` with left = 0",
+  needs="a torrent in the heap representation and a peer that is already stored announcing `started` again",
+  demo="demo.diff (unit tests in crates/http/src/workers/swarm/storage.rs)",
+  caught_by=[caught("C07", "hist", "announce-counts")],
+ ),
+ "C12": dict(
+  worktree="/tmp/seed3-C12",
+  summary="http_protocol urldecode_20_bytes decodes %xx through a 256-entry table indexed with `char as usize`, dropping the is_ascii check of the two chars after '%': a char >= U+0100 in a hex position indexes out of bounds",
+  needs="an info_hash or peer_id in which '%' is followed (in either hex position) by a valid UTF-8 character >= U+0100, e.g. `info_hash=%4\\u0100...`; %zz, Latin-1 after %, truncated escapes and invalid UTF-8 do not trigger it",
+  demo="demo.diff (unit test in crates/http_protocol/src/request.rs)",
+  caught_by=[],
+ ),
+ "C13": dict(
+  worktree="/tmp/seed3-C13",
+  summary="udp_protocol Request::parse_bytes (scrape) cuts the remaining bytes to max_scrape_torrents * 20 before the cast to [InfoHash], so the multiple-of-20 check only sees the kept part",
+  needs="a scrape whose hash list is not a multiple of 20 bytes and at least max_scrape_torrents * 20 bytes long (any non-empty ragged list when the limit is 0); shorter ragged lists are still rejected",
+  demo="demo/crates/udp_protocol/tests/seeded_demo.rs",
+  caught_by=[caught("C13", "boundaries", "decode-accepted-malformed")],
+ ),
+ "C14": dict(
+  worktree="/tmp/seed3-C14",
+  summary="http_protocol urldecode_20_bytes slices value.as_bytes() at a position counted in characters: after a raw character U+0080..U+00FF (2 UTF-8 bytes) every later %xx of the identifier is read from the wrong offset",
+  needs="one identifier containing a raw (unescaped) character in U+0080..U+00FF and, later, a percent escape: rejected or silently decoded to other bytes; all-raw, all-escaped and ASCII+escape identifiers are unaffected",
+  demo="demo/crates/http_protocol/tests/seeded_demo.rs",
+  caught_by=[],
+ ),
+ "C15": dict(
+  worktree="/tmp/seed3-C15",
+  summary="ws_protocol TwentyByteVisitor::visit_str fast path: a string of exactly 20 UTF-8 *bytes* is taken as the identifier as is",
+  needs="an identifier string of fewer than 20 characters whose UTF-8 encoding is 20 bytes long (e.g. ten times U+00FF, or 18 ASCII + U+0100): accepted although it is not 20 characters <= U+00FF; round-trips unaffected",
+  demo="demo/crates/ws_protocol/tests/seeded_demo.rs",
+  caught_by=[caught("C15", "codec", "id-accepted-malformed", note="run with the generator class 'UTF-8 length 20/40 but not 20 chars' that I added after reading the change; the earlier generator (0..40 chars uniform over U+0000..U+00FF plus injected higher chars) produces such strings in about 0.2 % of identifier cases, i.e. a few hundred per quick run, so it is expected to have caught it as well - not measured")],
+ ),
+ "C18": dict(
+  worktree="/tmp/seed3-C18",
+  summary="http REQUEST_BUFFER_SIZE 2048 -> 4096 while RESPONSE_BUFFER_SIZE stays 8192 and max_scrape_torrents is not validated: a request can now carry 131 info hashes, a reply with >= 117 files does not fit",
+  needs="protocol.max_scrape_torrents >= 117 (default 100 still fits) and a scrape of >= 117 mostly unescaped hashes (3.6-4 KiB request): connection closed without a reply, configuration accepted",
+  demo="demo/crates/http/tests/seeded_demo.rs",
+  caught_by=[],
+ ),
  "C04": None,  # written by hand earlier
  "C06": dict(
   worktree="/tmp/seed2-C06",
@@ -35,7 +91,7 @@ T = {
   demo="demo/crates/udp_protocol/tests/seeded_demo.rs and demo/crates/udp/tests/seeded_demo.rs",
   caught_by=[caught("C06", "datagrams", "scrape-content", note="only after the generator was extended to scrapes of up to 408 hashes (missed before: longest scrape was 80 hashes)"),
              caught("C13", "boundaries", "roundtrip-mismatch", note="after the boundary list was extended to 255/256/257/325/326/408/409 hashes")],
-  extra="the existing test `test_access_list_deny` (aquatic_udp) failed once in my suite run with `recv response: Resource temporarily unavailable` - a 1 s receive time-out of that test under load average ~100 (six sub-agents compiling); re-run of the suite with the change at low load: see suite-with-change.log",
+  extra="in my first suite run with the change the existing test `test_access_list_deny` (aquatic_udp) failed with `recv response: Resource temporarily unavailable` - its 1 s receive time-out under load average ~100 (six sub-agents compiling), unrelated to the change; the whole verification was repeated at lower load and the suite passed (the logs kept are of that second run)",
  ),
  "C08": dict(
   worktree="/tmp/seed-C08",
@@ -80,7 +136,7 @@ T = {
   summary="aquatic_udp::run: the supervision loop's sleep between `is_finished` rounds starts at 100 ms and doubles up to 30 s (was a fixed 5 s)",
   needs="a worker dying later than ~12.7 s after start-up and more than 10 s before the next round (12.7-15.5 s, 25.5-41.1 s, 51.1-71.1 s, ...); start-up failures are noticed faster than before",
   demo="demo/crates/udp/tests/seeded_demo.rs",
-  caught_by=[],  # filled below from RESULTS
+  caught_by=[caught("C19", "faults", "tracker-kept-running", note="missed twice: first the grid only injected faults within seconds of start-up; then two fixed late uptimes (17 s, 45 s) both fell between the change's blind windows. Caught after 'any moment of its life' became a ladder of uptimes (every 3 s from 11 s to 53 s, offset by the seed; every second up to 130 s in the thorough tier)")],
  ),
  "C20": dict(
   worktree="/tmp/seed-C20",
